@@ -292,7 +292,33 @@ def clear_denominators(phi):
                 changed[0] = True
                 p = N.poly_term(f[0])
                 return (p == 0) if k == z3.Z3_OP_EQ else (p != 0)
+        if k in (z3.Z3_OP_LE, z3.Z3_OP_GE, z3.Z3_OP_LT, z3.Z3_OP_GT) and len(t.children()) == 2:
+            # a - b = num/den with den = prod prim_k^e_k (all non-zero): sign(a - b) = sign(num * prod_{e_k odd} prim_k);
+            # primitive factors that are sums of even-power monomials with positive coefficients (1 + t^2) are positive and dropped
+            a, b = t.children()
+            if has_div(a, seen) or has_div(b, seen):
+                try:
+                    num, den = N.f_add(N.norm(a), N.norm(b), -1)
+                    for key, e in den.items():
+                        prim = N.den_atoms[key]
+                        if e % 2 == 0 or _obviously_positive(prim):
+                            continue
+                        num = p_mul(num, prim)
+                except (TooBig, ZeroDivisionError, RecursionError):
+                    return t
+                changed[0] = True
+                p = N.poly_term(num)
+                return {z3.Z3_OP_LE: p <= 0, z3.Z3_OP_GE: p >= 0, z3.Z3_OP_LT: p < 0, z3.Z3_OP_GT: p > 0}[k]
         return t
 
     out = walk(phi)
     return out, changed[0]
+
+
+def _obviously_positive(poly):
+    """every monomial has even exponents only and a positive coefficient: the polynomial is >= 0, and as a denominator it is
+    non-zero by the definedness assumption under which clear_denominators is applied, hence positive"""
+    for m, c in poly.items():
+        if c <= 0 or any(e % 2 for _, e in m):
+            return False
+    return True
